@@ -545,7 +545,7 @@ fn derived_member(d: &Dfa) -> Option<String> {
 /// a document that consists of the chain of elements from the root to one element of type `t`, which carries `value`
 /// as its content (attr = None) or as the value of the attribute `attr`
 fn micro_doc(walk: &SpecWalk, t: ElementType, version: AutosarVersion, attr: Option<AttributeName>, value: &str) -> Vec<u8> {
-    let path = walk.path_to(t);
+    let path = walk.path_to_in(t, version).unwrap_or_else(|| walk.path_to(t));
     let mut s = crate::specdoc::header(version);
     for (i, (et, name, _)) in path.iter().enumerate() {
         let leaf = i + 1 == path.len();
